@@ -423,11 +423,14 @@ var knownQuirks = []struct {
 	{ms.QuirkStrictBER, "pre-bip66-lax-der-parser"},
 	{ms.QuirkMultisigSkipsPubkeyCheck, "multisig-empty-sig-skips-pubkey-encoding"},
 	{ms.QuirkTapscriptEmptySigSkipsPubkeyType, "tapscript-empty-sig-unknown-pubkey-not-discouraged"},
+	{ms.QuirkParseFailurePushesFalse, "checksig-unparseable-sig-or-key-skips-nullfail"},
 }
 
 // activeQuirks are the deviations that are listed as known: the model
 // emulates them on the second pass so the search continues behind them.
 func knownSignature(s *spend, fs flagSet, r ms.Result, err error) string {
+	var all ms.Quirks
+	first := ""
 	for _, k := range knownQuirks {
 		if !ev.IsKnown("C06", k.sig) {
 			continue
@@ -436,6 +439,19 @@ func knownSignature(s *spend, fs flagSet, r ms.Result, err error) string {
 		if (err == nil) == r2.Valid() {
 			return k.sig
 		}
+		all |= k.q
+		if first == "" {
+			first = k.sig
+		}
+	}
+	// several listed deviations at once (e.g. two CHECKSIGs in one script)
+	if all != 0 && (err == nil) == ms.VerifyQuirks(s.tx, s.idx, s.prevouts, fs.model, all).Valid() {
+		for _, k := range knownQuirks {
+			if ev.IsKnown("C06", k.sig) && (err == nil) != ms.VerifyQuirks(s.tx, s.idx, s.prevouts, fs.model, all&^k.q).Valid() {
+				return k.sig // removing this one breaks the agreement: it is involved
+			}
+		}
+		return first
 	}
 	return ""
 }
